@@ -79,7 +79,7 @@ pub fn vocab(code: &str) -> Vocab {
     Vocab { lang: code.to_string(), words, func, titles, letters, accents }
 }
 
-pub const SEPS: &[&str] = &[" ", " ", " ", "-", ", ", "  ", " & ", ". ", "\u{00A0}", "\u{2014}", "; ", "\t", "'", "/"];
+pub const SEPS: &[&str] = &[" ", " ", " ", "-", ", ", "  ", " & ", ". ", "\u{00A0}", "\u{2014}", "; ", "\t", "'", "/", " - ", "   ", " -- ", "  -  "];
 
 impl Vocab {
     pub fn word(&self, r: &mut Rng) -> String {
@@ -320,6 +320,16 @@ pub fn query_for(v: &Vocab, r: &mut Rng, title: &str) -> String {
         2 => { parts.push(words.concat()); }                                              // run together
         3 => { let i = r.below(words.len()); parts.push(mutate_word(v, r, words[i])); }
         4 => { if words.len() > 1 { let i = r.below(words.len() - 1); parts.push(format!("{}{}", words[i], words[i + 1])); } else { parts.push(words[0].to_string()); } }
+        5 => {
+            // a title word followed by a short tail of cheap characters (digits, a doubled letter, a vowel):
+            // drives the joined-record match to end inside or just after the gap
+            let i = r.below(words.len());
+            let mut w = words[i].to_string();
+            let n = r.range(1, 4);
+            let c = *r.pick(&v.letters);
+            for k in 0..n { match r.below(4) { 0 => w.push('1'), 1 => w.push(c), 2 => w.push(*r.pick(&['a', 'e', 'o'])), _ => w.push(if k == 0 { '0' } else { c }) } }
+            parts.push(w);
+        }
         _ => {
             let n = r.range(1, words.len().min(3));
             let start = r.below(words.len() - n + 1);
@@ -370,9 +380,16 @@ pub fn store_case(code: &str, v: &Vocab, r: &mut Rng, name: String, o: &StoreGen
             (0..n).map(|_| { let k = r.range(1, 4); (0..k).map(|_| *r.pick(&['a', 'b', 'c'])).collect::<String>() }).collect::<Vec<_>>().join(" ")
         } else if o.ties && !titles.is_empty() && r.chance(1, 3) { r.pick(titles).clone() } else { v.title(r) }
     };
+    // rating scheme of the case: cache-stress cases also load records sorted by rating (bulk loading), both ways
+    let rmode = if o.cache_stress { r.below(4) } else { 0 };
     let mut rating = |r: &mut Rng, used: &mut Vec<usize>| -> usize {
-        if o.ties { r.below(4) } else { loop { let x = r.below(1 << 20); if !used.contains(&x) { used.push(x); return x; } } }
+        match rmode {
+            1 => { let x = 1_000_000usize.saturating_sub(used.len() * 10 + r.below(5)); used.push(x); x }   // descending
+            2 => { let x = used.len() * 10 + r.below(5); used.push(x); x }                                     // ascending
+            _ => if o.ties { r.below(4) } else { loop { let x = r.below(1 << 20); if !used.contains(&x) { used.push(x); return x; } } }
+        }
     };
+    let (lim_small, lim_big) = (r.below(n0 + 1), n0 + 1 + r.below(6));
     for _ in 0..n0 {
         let t = mk_title(r, &titles);
         titles.push(t.clone());
@@ -381,10 +398,12 @@ pub fn store_case(code: &str, v: &Vocab, r: &mut Rng, name: String, o: &StoreGen
     }
     for _ in 0..o.ops {
         if o.cache_stress {
-            // histories that exercise derived state: empty-query searches interleaved with limit moves, adds, clears
+            // histories that exercise derived state: empty-query searches interleaved with limit moves
+            // (toggling among a few values so that an earlier limit comes back), adds, clears
+            let lims = [ lim_small, lim_big, lim_small, lim_big, titles.len().saturating_sub(1), titles.len() + 2, 10 ];
             match r.below(20) {
                 0..=6 => ops.push(Op::Search(r.pick(&["", " ", "-"]).to_string())),
-                7..=11 => ops.push(Op::Limit(r.below(titles.len() + 3))),
+                7..=11 => ops.push(Op::Limit(if r.chance(3, 4) { *r.pick(&lims) } else { r.below(titles.len() + 3) })),
                 12..=15 => { let t = mk_title(r, &titles); titles.push(t.clone()); ops.push(Op::Add(next_id, rating(r, &mut used_ratings), t)); next_id += 1; }
                 16 => { ops.push(Op::Clear); titles.clear(); }
                 _ => { let q = if titles.is_empty() { v.title(r) } else { let t = r.pick(&titles).clone(); query_for(v, r, &t) }; ops.push(Op::Search(q)); }
